@@ -548,7 +548,11 @@ func init() {
 			}
 			runtime.ReadMemStats(&ms)
 			if d := time.Since(since); d > 180*time.Second || ms.HeapAlloc > 6<<30 {
-				fmt.Fprintf(os.Stderr, "vsim: WATCHDOG: workload %s run %d (seed %d) has been running for %v with %d MB of heap; giving up (infrastructure, not a violation)\n", name, idx, seed, d.Round(time.Second), ms.HeapAlloc>>20)
+				fmt.Fprintf(os.Stderr, "vsim: WATCHDOG: workload %s run %d (seed %d) has been running for %v with %d MB of heap; giving up\n", name, idx, seed, d.Round(time.Second), ms.HeapAlloc>>20)
+				// the driver decides from the stacks whether a library call is what does not return
+				buf := make([]byte, 1<<20)
+				buf = buf[:runtime.Stack(buf, true)]
+				fmt.Fprintf(os.Stderr, "vsim: WATCHDOG-STACKS\n%s\n", buf)
 				os.Exit(2)
 			}
 		}
